@@ -36,6 +36,7 @@ type History struct {
 	// start-up paths: first start on an empty directory (no Ops), header
 	// state assertions on the final state of Ops
 	FirstStart bool         `json:"first_start,omitempty"`
+	ViaCS      bool         `json:"via_chain_service,omitempty"` // first start through neutrino.NewChainService
 	Startup    *StartupSpec `json:"startup,omitempty"`
 	SCases     []SCase      `json:"scases,omitempty"`
 }
@@ -45,15 +46,34 @@ func isMut(k string) bool {
 }
 
 // evalImage reopens the stores on a crash image and produces the post trace.
-func evalImage(dir string, pool *storeh.Pool, followTok int64) []Op {
+func evalImage(dir string, pool *storeh.Pool, followTok int64, probe []int64) []Op {
 	post := []Op{{Kind: "reopen", WF: true}}
-	opened, rest := evalImageA(dir, pool, followTok, nil)
+	opened, rest := evalImageA(dir, pool, followTok, nil, probe...)
 	if !opened {
 		post[0].Obs = "(OReopen false)"
 		return post
 	}
 	post[0].Obs = "(OReopen true)"
 	return append(post, rest...)
+}
+
+// probeToks samples hash tokens of the interrupted operation's entries: after
+// recovery each is either stored at its height or unknown to the index (an
+// index commit split into several transactions would leave orphans).
+func probeToks(op *Op) []int64 {
+	if op.Kind != "bwrite" || len(op.Es) == 0 {
+		return nil
+	}
+	n := len(op.Es)
+	seen := map[int]bool{}
+	var out []int64
+	for _, i := range []int{0, n / 3, n / 2, 999, 1000, 1001, n - 2, n - 1} {
+		if i >= 0 && i < n && !seen[i] {
+			seen[i] = true
+			out = append(out, op.Es[i].A)
+		}
+	}
+	return out
 }
 
 func appendBytes(path string, data []byte) {
@@ -66,6 +86,9 @@ func appendBytes(path string, data []byte) {
 }
 
 func runHistory(id int, seed int64, nops int, nTrig int, base string, pool *storeh.Pool, replay *History) History {
+	if replay != nil && replay.FirstStart && replay.ViaCS {
+		return runFirstStartCS(id, seed, base, pool, replay)
+	}
 	if replay != nil && replay.FirstStart {
 		return runFirstStart(id, seed, base, pool, replay)
 	}
@@ -198,7 +221,13 @@ func runHistory(id int, seed int64, nops int, nTrig int, base string, pool *stor
 			if ftok == pool.Genesis {
 				ftok = 595 // never hand the genesis header itself to the follow-up append
 			}
-			post := evalImage(im.dir, pool, ftok)
+			if len(pool.Headers) > 1000 {
+				ftok = 2100 + int64(len(h.Cases)%30) // the big pool's batch uses the low tokens
+				if ftok == pool.Genesis {
+					ftok = 2150
+				}
+			}
+			post := evalImage(im.dir, pool, ftok, probeToks(&op))
 			os.RemoveAll(im.dir)
 			h.Cases = append(h.Cases, Case{
 				ID: id*1000 + len(h.Cases), Prefix: prefix, Cop: op, K: im.k, Torn: im.torn,
@@ -246,6 +275,11 @@ func main() {
 		n, nops, nTrig = 400, 20, 2
 	}
 	firstStart := &History{ID: 800, FirstStart: true}
+	// one append of a whole headers message (more entries than any internal
+	// chunking would use), over its own, larger header pool
+	const bigID, bigN = 850, 1500
+	var bigPool *storeh.Pool
+	var bigHist *History
 	var replay *History
 	var corpus []History
 	if a.Replay != "" {
@@ -260,8 +294,20 @@ func main() {
 			c.ReadJSON(f, &h)
 			corpus = append(corpus, h)
 		}
-		corpus = append(corpus, *firstStart)
+		corpus = append(corpus, *firstStart, History{ID: 801, FirstStart: true, ViaCS: true})
 		n += len(corpus)
+		bigPool = storeh.NewPool(2300, gf)
+		bh := History{ID: bigID}
+		op := Op{Kind: "bwrite", WF: true}
+		for t, ht := int64(1), int64(1); ht <= bigN; t++ {
+			if t == bigPool.Genesis {
+				continue
+			}
+			op.Es = append(op.Es, storeh.Ent{A: t, B: ht})
+			ht++
+		}
+		bh.Ops = []Op{op}
+		bigHist = &bh
 	}
 	hs := make([]History, n)
 	var wg sync.WaitGroup
@@ -283,6 +329,10 @@ func main() {
 		}(i)
 	}
 	wg.Wait()
+	var big History
+	if bigHist != nil {
+		big = runHistory(bigID, a.Seed, 1, 0, base, bigPool, bigHist)
+	}
 
 	var all []Case
 	owner := map[int]int{}
@@ -295,6 +345,33 @@ func main() {
 	const perShard = 120
 	shard := 0
 	distinct := c.Signatures{}
+	if len(big.Cases) > 0 {
+		// the big-batch cases use the big pool's tokens: their own file
+		var sb strings.Builder
+		sb.WriteString("From Coq Require Import ZArith List.\nFrom Verif Require Import S1.Model C08.Model C08.Replay.\nImport ListNotations.\nOpen Scope Z_scope.\n")
+		sb.WriteString(fmt.Sprintf("Definition genesis : Z := %d.\nDefinition gfh : Z := %d.\n", bigPool.Genesis, bigPool.GenesisFilter))
+		sb.WriteString("Definition cases : list ccase := [\n")
+		for i := range big.Cases {
+			cs := &big.Cases[i]
+			if i > 0 {
+				sb.WriteString(";\n")
+			}
+			torn := "None"
+			if cs.Torn >= 0 {
+				torn = c.Some(c.Z(cs.Torn))
+			}
+			sb.WriteString(fmt.Sprintf("{| cid := %d; prefix := %s; cop := %s; ck := %d; ctorn := %s; ckinds := %s; post := %s |}",
+				cs.ID, trace(cs.Prefix), storeh.OpTerm(&cs.Cop), cs.K, torn, c.Ints(cs.Kinds), trace(cs.Post)))
+		}
+		sb.WriteString("].\nDefinition R := Eval vm_compute in (run_cases genesis gfh cases).\nSet Printing Width 1000000.\nSet Printing Depth 1000000.\nPrint R.\n")
+		c.WriteFile(filepath.Join(a.Out, "cases_big.v"), sb.String())
+		p := filepath.Join(a.Out, fmt.Sprintf("hist-%d.json", big.ID))
+		c.WriteJSON(p, big)
+		for _, cs := range big.Cases {
+			rep.Cases[fmt.Sprint(cs.ID)] = p
+			rep.Histogram["crash:bwrite:whole-headers-message"]++
+		}
+	}
 	for start := 0; start < len(all); start += perShard {
 		end := start + perShard
 		if end > len(all) {
@@ -363,6 +440,8 @@ func main() {
 			switch cs.Kind {
 			case 0:
 				key = fmt.Sprintf("startup:first:filter=%v:%s", cs.Filter, cls)
+			case 3:
+				key = fmt.Sprintf("startup:first-chainservice:%s", cls)
 			case 1:
 				hc := "mid"
 				if cs.AH == 0 {
@@ -401,7 +480,7 @@ func main() {
 			}
 		}
 	}
-	rep.Evaluations = len(all) + len(sall)
+	rep.Evaluations = len(all) + len(sall) + len(big.Cases)
 	rep.DistinctNontrivial = len(distinct)
 	rep.Rule = "crash images of the real stores: for every mutating operation (block/filter append of 1..17 entries, single/multi-header block rollback, filter rollback) of generated well-formed histories, one image after each durable step that is not the last, and three torn-append images per file write (partial first entry, q whole entries, q whole + partial); each image is reopened with NewBlockHeaderStore/NewFilterHeaderStore, dumped and extended by a follow-up append; every image is non-trivial (a crash inside a multi-step operation); distinct = distinct (operation, crash class, batch size, rollback depth). Start-up paths: one first start on an empty directory (NewBlockHeaderStore, NewFilterHeaderStore) with the directory snapshotted at every index commit and the images between commits assembled from the bbolt file of the earlier commit and a prefix of the bytes the code wrote; on every history's final state a NewFilterHeaderStore with a header state assertion that triggers the reset, snapshotted/assembled the same way, every image reopened WITH and WITHOUT the assertion; plus four assertions that must not trigger (height beyond the file, stored value, genesis entry, largest height)"
 	for i := 0; i < len(all) && i < 3; i++ {
